@@ -177,7 +177,11 @@ def oracle_table(case):
         want.setdefault(key, {"name": a["resname"], "atoms": []})["atoms"].append((a["name"], a["x"], a["y"], a["z"]))
     for k in want:
         want[k]["atoms"].sort()
-    paths = {"pdb": write_tmp(atomtab.emit_pdb(atoms), "pdb"), "cif": write_tmp(atomtab.emit_cif(atoms, case.get("null", "?")), "cif")}
+    if case.get("model_number") not in (None, 1):
+        # the single model carries another number than 1 (one conformer cut out of an ensemble, frames counted from 0)
+        atoms = [dict(a, model=case["model_number"]) for a in atoms]
+    paths = {"pdb": write_tmp(atomtab.emit_pdb(atoms, always_model=case.get("model_number") not in (None, 1)), "pdb"),
+             "cif": write_tmp(atomtab.emit_cif(atoms, case.get("null", "?")), "cif")}
     wants = {"pdb": want, "cif": want}
     dia = case.get("dialect")
     if dia:
@@ -303,6 +307,8 @@ def classify(case):
         labs.append("broken-link")
     if info["chi"]:
         labs.append("chi-compared")
+    if case.get("model_number") not in (None, 1):
+        labs.append("single-model-not-numbered-1")
     if case.get("dialect"):
         labs.append("cif-dialect-" + case["dialect"].get("identity", "both"))
         if case["dialect"].get("label_seq") == "author" and case["dialect"].get("identity") != "label":
@@ -362,7 +368,7 @@ def st_cases():
                     n += 1
             if atomtab.spread(flat, 0.6) and all(-900 < a[other] < 9000 for a in flat):
                 atoms = flat
-        return {"atoms": atoms, "null": draw(st.sampled_from(["?", "."])), "dialect": dialect}
+        return {"atoms": atoms, "null": draw(st.sampled_from(["?", "."])), "dialect": dialect, "model_number": draw(st.sampled_from([1, 1, 1, 2, 0, 7]))}
 
     return build()
 
